@@ -31,6 +31,7 @@ RULE = ("all signatures with <= 3 parameters over {positional-only, positional-o
 ASSUMPTIONS = ["values are ints (they already have the annotated type)", "at most 3 declared parameters and 2 extra keys"]
 
 KINDS = ["PO", "PK", "KO"]
+FRESH_PROCESS_PER_JOB = True  # converters of other actors must not influence a case (see POLLUTERS)
 
 
 def provider():
@@ -138,7 +139,31 @@ CONVERTERS = {"basic": BasicConverter, "pydantic": PydanticConverter, "default":
               "router-default": None}
 
 
+# A program has many actors.  Before every case the converters of these other actors are built, so
+# that state shared between converter instances (there must be none) shows up deterministically:
+# the same parameter names in every kind, with and without defaults, with *args / **kwargs.
+POLLUTERS = [
+    dict(kinds=[0, 0, 0], defaults=[False, False, True], va=True, vk=False, dep=False),
+    dict(kinds=[1, 1, 1], defaults=[False, True, True], va=False, vk=True, dep=True),
+    dict(kinds=[2, 2, 2], defaults=[True, False, True], va=True, vk=True, dep=False),
+    dict(kinds=[2, 2, 2], defaults=[False, False, False], va=False, vk=False, dep=True),
+    dict(kinds=[0, 1, 2], defaults=[False, False, False], va=True, vk=False, dep=False),
+]
+
+
+def pollute(conv_name):
+    for ps in POLLUTERS:
+        ns = dict(Annotated=Annotated, Depends=Depends, provider=provider, calls=[])
+        exec(source(ps), ns)  # noqa: S102
+        for cls in (BasicConverter, PydanticConverter):
+            try:
+                cls(ns["fn"])
+            except ValueError:
+                pass
+
+
 def run_case(sig, conv_name, conn, proc):
+    pollute(conv_name)
     ns = dict(Annotated=Annotated, Depends=Depends, provider=provider, calls=[])
     src = source(sig)
     try:
